@@ -18,6 +18,27 @@ func GenValue(seed uint64, n int) []byte {
 	return out
 }
 
+// OpValue is the value a history op writes: GenValue for ten seeds in
+// thirteen; the others give all zero bytes, a pseudo-random first half followed
+// by zero bytes, and all 0xff bytes - contents that look like holes, padding
+// or pre-extended file space to any code that inspects bytes instead of
+// lengths. Values of one such class and one length are equal, so a stale read
+// among them goes unnoticed; the unique classes dominate for that reason.
+func OpValue(seed uint64, n int) []byte {
+	v := GenValue(seed, n)
+	switch seed % 13 {
+	case 5:
+		clear(v)
+	case 9:
+		clear(v[n/2:])
+	case 11:
+		for i := range v {
+			v[i] = 0xff
+		}
+	}
+	return v
+}
+
 // FillValue fills out with the (seed, len(out)) stream.
 func FillValue(out []byte, seed uint64) {
 	n := len(out)
